@@ -3,6 +3,9 @@ import CookModel.Lemmas.CollectorFold
 import CookModel.Lemmas.ClosingStream
 import CookModel.Lemmas.CollectorOrder
 import CookModel.Lemmas.CollectorRefIff
+import CookModel.Lemmas.CollectorBack
+import CookModel.Lemmas.CollectorInterRef
+import CookModel.Lemmas.CollectorStrictWB
 /-
   C06  The recipe model is referentially consistent.
 
@@ -343,5 +346,258 @@ example : ¬ HasErr #[⟨.warning, .analysis, "redundant-ref", []⟩] := by
   simp at hd; subst hd; cases hs
 example : HasErr #[⟨.warning, .analysis, "redundant-ref", []⟩, ⟨.error, .analysis, "reference-not-found", [⟨0, 1⟩]⟩] :=
   ⟨⟨.error, .analysis, "reference-not-found", [⟨0, 1⟩]⟩, by simp, rfl⟩
+
+/-! ### the remaining reference clauses, for the RETURNED recipe
+    (Lemmas/CollectorTrans.lean, CollectorBack.lean, CollectorInterRef.lean, CollectorStrictWB.lean) -/
+
+/-- every cookware item that is a reference points to an EARLIER cookware item that is a definition and
+    lists it back exactly once (the cookware mirror of the ingredient clause of `RecipeInv`) -/
+def CookwareRefsOK (c : Col α) : Prop :=
+  ∀ (k : Nat) (cw : Cookware (ScalableValue α)), c.cookware[k]? = some cw →
+    ∀ t, cw.relation = .reference t →
+      t < k ∧ ∃ d, c.cookware[t]? = some d ∧ ∃ rf b, d.relation = .definition rf b ∧ rf.count k = 1
+
+/-- every index listed in a definition's `referenced_from` is a LATER component of the same table whose
+    relation is a regular reference to that definition — ingredients and cookware -/
+def BacklinksSound (c : Col α) : Prop :=
+  (∀ (t : Nat) (d : Ingredient (ScalableValue α)), c.ingredients[t]? = some d →
+    ∀ j ∈ d.relation.relation.referencedFrom,
+      t < j ∧ ∃ ig, c.ingredients[j]? = some ig ∧ ig.relation = ⟨.reference t, some .ingredient⟩) ∧
+  (∀ (t : Nat) (d : Cookware (ScalableValue α)), c.cookware[t]? = some d →
+    ∀ j ∈ d.relation.referencedFrom,
+      t < j ∧ ∃ cw, c.cookware[j]? = some cw ∧ cw.relation = .reference t)
+
+/-- an ingredient item (in the step at position `p` of section number `si`) whose ingredient targets a
+    STEP: the target index is the position of a step in the content of that same section, before `p` -/
+def StepRefsOK (c : Col α) : Prop :=
+  ∀ (si : Nat) (sec : Section), c.sections[si]? = some sec →
+    ∀ (p : Nat) (st : Step), sec.content[p]? = some (.step st) → ∀ k, Item.ingredient k ∈ st.items →
+      ∀ (ig : Ingredient (ScalableValue α)), c.ingredients[k]? = some ig →
+        ∀ i, ig.relation = ⟨.reference i, some .step⟩ → i < p ∧ ∃ st', sec.content[i]? = some (.step st')
+
+/-- an ingredient item in section number `si` whose ingredient targets a SECTION: the target index is
+    smaller than `si` (so it addresses an existing, earlier section) -/
+def SectionRefsOK (c : Col α) : Prop :=
+  ∀ (si : Nat) (sec : Section), c.sections[si]? = some sec →
+    ∀ (p : Nat) (st : Step), sec.content[p]? = some (.step st) → ∀ k, Item.ingredient k ∈ st.items →
+      ∀ (ig : Ingredient (ScalableValue α)), c.ingredients[k]? = some ig →
+        ∀ i, ig.relation = ⟨.reference i, some .section⟩ → i < si
+
+/-- a regular reference has the same name as its definition after the model's case folding
+    (`env.fold`, standing for `unicase`) — ingredients and cookware -/
+def RefNamesMatch (env : Env) (c : Col α) : Prop :=
+  (∀ (k : Nat) (ig : Ingredient (ScalableValue α)), c.ingredients[k]? = some ig →
+    ∀ t, ig.relation = ⟨.reference t, some .ingredient⟩ →
+      ∃ d, c.ingredients[t]? = some d ∧ foldStr env ig.name = foldStr env d.name) ∧
+  (∀ (k : Nat) (cw : Cookware (ScalableValue α)), c.cookware[k]? = some cw →
+    ∀ t, cw.relation = .reference t →
+      ∃ d, c.cookware[t]? = some d ∧ foldStr env cw.name = foldStr env d.name)
+
+/-- **Cookware references.**  In every recipe `parse` returns (valid or not): a cookware item whose
+    relation is a reference points to an EARLIER cookware item that is a definition, and that
+    definition's `referenced_from` lists the referrer exactly once. -/
+theorem C06_cookware_references (env : Env) (input : Str) (c : Col α)
+    (h : (parseRecipe (α := α) env input).output = some c) : CookwareRefsOK c := by
+  intro k cw hk t ht
+  obtain ⟨h1, d, h2, _, _, rf, b, h3, h4⟩ :=
+    C06_cookware_reference_backlinks env input _ c (pullEvents_evOK env.cs env.ext input) h k cw hk t ht
+  exact ⟨h1, d, h2, rf, b, h3, h4⟩
+
+/-- every event keeps the back-links sound: `set_referenced_from` appends the index the new component
+    is about to get, to the definition `resolve_reference` found, and nothing else writes relations -/
+theorem C06_backlinks_invariant_step (env : Env) (input : Str) (ev : Ev α) (s : Col α) (hi : Inv env s)
+    (hb : BackInv s) (hev : EvOK ev) : BackInv (processEvent env input ev s).2 :=
+  processEvent_back env input ev s hi hb hev
+
+/-- for ANY list of `EvOK` events: every `referenced_from` entry is a later regular reference to the
+    definition that lists it -/
+theorem C06_backlinks_sound_of_events (env : Env) (input : Str) (evs : List (Ev α)) (c : Col α)
+    (hev : ∀ ev ∈ evs, EvOK ev) (h : (parseEventsLoop env input evs {}).output = some c) : BacklinksSound c :=
+  parseEventsLoop_back env input evs {} c (Inv.init env) BackInv.init hev h
+
+/-- **Back-links are sound.**  In every recipe `parse` returns (valid or not): every index `j` listed in
+    the `referenced_from` of the definition at index `t` is LATER than `t` and the component at `j` is a
+    regular reference to `t` — for ingredients (so an intermediate reference is never listed) and for
+    cookware.  With `RecipeInv` / `C06_cookware_references` (each reference is listed exactly once by
+    its target) the two directions make `referenced_from` exactly the list of the referrers. -/
+theorem C06_backlinks_sound (env : Env) (input : Str) (c : Col α)
+    (h : (parseRecipe (α := α) env input).output = some c) : BacklinksSound c :=
+  C06_backlinks_sound_of_events env input _ c (pullEvents_evOK env.cs env.ext input) h
+
+/-- no `referenced_from` list has a repeated entry (each entry is a reference to the definition, and a
+    reference is listed exactly once) -/
+theorem C06_backlinks_no_duplicates (env : Env) (input : Str) (c : Col α)
+    (h : (parseRecipe (α := α) env input).output = some c) :
+    (∀ (t : Nat) (d : Ingredient (ScalableValue α)), c.ingredients[t]? = some d →
+      d.relation.relation.referencedFrom.Nodup) ∧
+    (∀ (t : Nat) (d : Cookware (ScalableValue α)), c.cookware[t]? = some d → d.relation.referencedFrom.Nodup) := by
+  have hev := pullEvents_evOK (α := α) env.cs env.ext input
+  have hs := C06_backlinks_sound env input c h
+  refine ⟨fun t d hd => ?_, fun t d hd => ?_⟩
+  · rw [List.nodup_iff_count]
+    intro j
+    by_cases hj : j ∈ d.relation.relation.referencedFrom
+    · obtain ⟨_, ig, hig, hrel⟩ := hs.1 t d hd j hj
+      obtain ⟨_, d', hd', _, _, rf, b, hr, hc⟩ := C06_reference_backlinks env input _ c hev h j ig hig t hrel
+      rw [hd] at hd'; cases hd'
+      rw [hr]; exact Nat.le_of_eq hc
+    · rw [List.count_eq_zero_of_not_mem hj]; exact Nat.zero_le _
+  · rw [List.nodup_iff_count]
+    intro j
+    by_cases hj : j ∈ d.relation.referencedFrom
+    · obtain ⟨_, cw, hcw, hrel⟩ := hs.2 t d hd j hj
+      obtain ⟨_, d', hd', _, _, rf, b, hr, hc⟩ := C06_cookware_reference_backlinks env input _ c hev h j cw hcw t hrel
+      rw [hd] at hd'; cases hd'
+      rw [hr]; exact Nat.le_of_eq hc
+    · rw [List.count_eq_zero_of_not_mem hj]; exact Nat.zero_le _
+
+/-- the parser emits `Section` events only between blocks, never between `Start` and `End`
+    (needed below: a block that is open across a `Section` event would be pushed into the new section
+    while its step references address the old one) -/
+theorem C06_parser_sections_outside_blocks (cs : CharSpec) (ext : Ext) (input : Str) :
+    SectionsOutsideBlocks (pullEvents (α := α) cs ext input).1.toList :=
+  pullEvents_sectionsOutsideBlocks cs ext input
+
+/-- every event of a stream whose `Section` events lie outside blocks keeps the intermediate-reference
+    invariant: a target computed against `current_section.content` / the number of finished sections
+    stays right because content only grows at its end, finished sections are never modified, and the
+    open block is pushed at the end of the current section -/
+theorem C06_intermediate_ref_invariant_step (env : Env) (input : Str) (ev : Ev α) (s : Col α)
+    (o o' : Option BlockKind) (hi : Inv env s) (h : IRefInv s) (hb : BlockNone s o) (hw : wbS o ev = some o')
+    (hev : EvOK ev) : IRefInv (processEvent env input ev s).2 :=
+  processEvent_iref env input ev s o o' hi h hb hw hev
+
+/-- for ANY list of `EvOK` events whose `Section` events lie outside blocks: step and section targets of
+    the ingredients used by the steps of the returned recipe are right -/
+theorem C06_intermediate_refs_of_events (env : Env) (input : Str) (evs : List (Ev α)) (c : Col α)
+    (hev : ∀ ev ∈ evs, EvOK ev) (hw : SectionsOutsideBlocks evs)
+    (h : (parseEventsLoop env input evs {}).output = some c) : StepRefsOK c ∧ SectionRefsOK c := by
+  have hf := parseEventsLoop_iref env input evs {} c none (Inv.init env) IRefInv.init (fun _ => rfl) hw hev h
+  exact ⟨fun si sec hs p st hp k hk ig hig i hr => ((hf si sec hs p st hp k hk ig hig) i).1 hr,
+         fun si sec hs p st hp k hk ig hig i hr => ((hf si sec hs p st hp k hk ig hig) i).2 hr⟩
+
+/-- **A step reference addresses an earlier step of the same section.**  In every recipe `parse`
+    returns (valid or not): if a step — at position `p` of the content of a section — has an ingredient
+    item whose ingredient's relation targets a STEP with index `i`, then `i < p` and the content of that
+    same section has a step at position `i` (the index counts content positions, text paragraphs
+    included, as `section.content[i]` in the renderer). -/
+theorem C06_step_reference_target (env : Env) (input : Str) (c : Col α)
+    (h : (parseRecipe (α := α) env input).output = some c) : StepRefsOK c :=
+  (C06_intermediate_refs_of_events env input _ c (pullEvents_evOK env.cs env.ext input)
+    (pullEvents_sectionsOutsideBlocks env.cs env.ext input) h).1
+
+/-- **A section reference addresses an earlier section.**  In every recipe `parse` returns (valid or
+    not): if a step of section number `si` has an ingredient item whose ingredient's relation targets a
+    SECTION with index `i`, then `i < si` — an existing section before the ingredient's own. -/
+theorem C06_section_reference_target (env : Env) (input : Str) (c : Col α)
+    (h : (parseRecipe (α := α) env input).output = some c) : SectionRefsOK c :=
+  (C06_intermediate_refs_of_events env input _ c (pullEvents_evOK env.cs env.ext input)
+    (pullEvents_sectionsOutsideBlocks env.cs env.ext input) h).2
+
+/-- **A reference has the name of its definition, ignoring case.**  In every recipe `parse` returns — the
+    property asks it of valid results, it holds of all — a regular ingredient reference and its target
+    have the same name after case folding (`env.fold`); the same for cookware. -/
+theorem C06_reference_name_matches (env : Env) (input : Str) (c : Col α)
+    (h : (parseRecipe (α := α) env input).output = some c) : RefNamesMatch env c := by
+  have hev := pullEvents_evOK (α := α) env.cs env.ext input
+  refine ⟨fun k ig hk t ht => ?_, fun k cw hk t ht => ?_⟩
+  · obtain ⟨_, d, h2, hn, _⟩ := C06_reference_backlinks env input _ c hev h k ig hk t ht
+    exact ⟨d, h2, by simpa [nameEq] using hn⟩
+  · obtain ⟨_, d, h2, hn, _⟩ := C06_cookware_reference_backlinks env input _ c hev h k cw hk t ht
+    exact ⟨d, h2, by simpa [nameEq] using hn⟩
+
+/-- **C06, every clause.**  Every recipe `parse` returns — for every input, extension set and converter
+    environment, valid or alongside errors — satisfies `RecipeInv` (item indices in range, ingredient
+    references point to an earlier definition that lists them back exactly once, nothing empty, steps
+    numbered 1,2,…, timers named or quantified) AND: item indices increase in document order
+    (`OrdFinal`); cookware references point to an earlier definition that lists them back exactly once;
+    every `referenced_from` entry is a later reference to the definition listing it; a step reference
+    addresses an earlier step of the same section and a section reference an earlier section; a
+    reference has the name of its definition up to case; and when the report has no error a component
+    is a reference exactly when it carries the reference modifier. -/
+theorem C06_holds_full (env : Env) (input : Str) (c : Col Rat)
+    (h : (parseRecipe (α := Rat) env input).output = some c) :
+    RecipeInv c ∧ OrdFinal c ∧ CookwareRefsOK c ∧ BacklinksSound c ∧ StepRefsOK c ∧ SectionRefsOK c ∧
+    RefNamesMatch env c ∧
+    ((∀ d ∈ (parseRecipe (α := Rat) env input).diags.toList, d.sev ≠ Sev.error) →
+      (∀ (k : Nat) (ig : Ingredient (ScalableValue Rat)), c.ingredients[k]? = some ig →
+        (ig.relation.relation.isReference = true ↔ ig.modifiers.contains Modifiers.REF = true)) ∧
+      (∀ (k : Nat) (cw : Cookware (ScalableValue Rat)), c.cookware[k]? = some cw →
+        (cw.relation.isReference = true ↔ cw.modifiers.contains Modifiers.REF = true))) :=
+  ⟨C06_holds env input c h, (C06_holds_extended env input c h).2.1, C06_cookware_references env input c h,
+   C06_backlinks_sound env input c h, C06_step_reference_target env input c h,
+   C06_section_reference_target env input c h, C06_reference_name_matches env input c h,
+   (C06_holds_extended env input c h).2.2⟩
+
+/-! non-vacuity of the new predicates and hypotheses -/
+
+-- a section event between blocks is accepted, one inside a block is not
+example : SectionsOutsideBlocks ([.start .step, .text (Text.empty 0), .stop .step, .«section» none, .start .text,
+    .stop .text] : List (Ev Rat)) :=
+  ⟨some .step, rfl, some .step, rfl, none, rfl, none, rfl, some .text, rfl, none, rfl, trivial⟩
+example : ¬ SectionsOutsideBlocks ([.start .step, .«section» none, .stop .step] : List (Ev Rat)) := by
+  rintro ⟨o, h1, o', h2, _⟩
+  cases h1
+  cases h2
+
+-- a two-section recipe whose last step refers to the first step of its section and to section 0:
+-- the clauses hold; a forward or cross-section step target violates them
+private def exRecipe (rel : IngredientRelation) : Col Rat :=
+  { sections := [⟨none, [.step ⟨[.text ['a']], 1⟩]⟩,
+                 ⟨some ['s'], [.step ⟨[.text ['b']], 1⟩, .text ['x'], .step ⟨[.ingredient 0], 2⟩]⟩],
+    ingredients := #[⟨['i'], none, none, none, none, rel, ⟨Modifiers.REF⟩⟩] }
+
+example : StepRefsOK (exRecipe ⟨.reference 0, some .step⟩) := by
+  intro si sec hs p st hp k hk ig hig i hr
+  match si, hs with
+  | 0, hs =>
+    cases hs
+    match p, hp with
+    | 0, hp => cases hp; simp at hk
+  | 1, hs =>
+    cases hs
+    match p, hp with
+    | 0, hp => cases hp; simp at hk
+    | 2, hp =>
+      cases hp
+      simp only [List.mem_singleton, Item.ingredient.injEq] at hk
+      subst hk
+      cases hig
+      cases hr
+      exact ⟨by omega, _, rfl⟩
+example : ¬ StepRefsOK (exRecipe ⟨.reference 2, some .step⟩) := by
+  intro h
+  have := (h 1 _ rfl 2 _ rfl 0 (by simp) _ rfl 2 rfl).1
+  omega
+example : ¬ StepRefsOK (exRecipe ⟨.reference 1, some .step⟩) := by
+  intro h
+  obtain ⟨_, st', hst⟩ := h 1 _ rfl 2 _ rfl 0 (by simp) _ rfl 1 rfl
+  cases hst
+example : ¬ SectionRefsOK (exRecipe ⟨.reference 1, some .section⟩) := by
+  intro h
+  have := h 1 _ rfl 2 _ rfl 0 (by simp) _ rfl 1 rfl
+  omega
+
+-- a definition that lists index 1, and index 1 refers back to it: sound; listing itself is not
+example : BacklinksSound (α := Rat)
+    { ingredients := #[⟨['i'], none, none, none, none, ⟨.definition [1] true, none⟩, ⟨0⟩⟩,
+                       ⟨['I'], none, none, none, none, ⟨.reference 0, some .ingredient⟩, ⟨Modifiers.REF⟩⟩] } := by
+  refine ⟨?_, fun t d hd => by simp at hd⟩
+  intro t d hd j hj
+  have ht : t < 2 := lt_size_of_getElem? hd
+  obtain rfl | rfl : t = 0 ∨ t = 1 := by omega
+  · simp only [List.getElem?_toArray, List.getElem?_cons_zero, Option.some.injEq] at hd
+    subst hd
+    simp only [ComponentRelation.referencedFrom, List.mem_singleton] at hj
+    subst hj
+    exact ⟨by omega, _, rfl, rfl⟩
+  · simp only [List.getElem?_toArray, List.getElem?_cons_succ, List.getElem?_cons_zero, Option.some.injEq] at hd
+    subst hd
+    cases hj
+example : ¬ BacklinksSound (α := Rat)
+    { ingredients := #[⟨['i'], none, none, none, none, ⟨.definition [0] true, none⟩, ⟨0⟩⟩] } := by
+  intro h
+  have := (h.1 0 _ rfl 0 (by simp [ComponentRelation.referencedFrom])).1
+  omega
 
 end Cook
